@@ -1,0 +1,14 @@
+//go:build verif
+
+package group
+
+// Verification hooks (build tag `verif` only, add-only): expose the daemon's real share handling so that the
+// honest members of generated DKG histories are driven by the code cylinder runs in round 3.
+var (
+	// VerifGetOwnPrivKey decrypts and verifies every dealt share and returns the member's private key share,
+	// or the complaints the daemon would file.
+	VerifGetOwnPrivKey = getOwnPrivKey
+	// VerifGetSecretShare handles the share of one dealer (decrypt, verify against the commitments, or build
+	// the complaint).
+	VerifGetSecretShare = getSecretShare
+)
